@@ -103,6 +103,10 @@ class SDy:
     EMIN = {8: -1074, 4: -149}
     EMAX = {8: 1023, 4: 127}
 
+    def __bool__(self):
+        # truth value of a float: non-zero (a symbolic fork)
+        return cur().decide(self.m != 0)
+
     def __init__(self, m, e, nb, dtype=real_np.float64, chk=True):
         self.m, self.e, self.nb, self.dtype = m, e, nb, real_np.dtype(dtype)
         sz = self.dtype.itemsize
